@@ -200,7 +200,9 @@ def check_find_path(res, scratch, g, text, plist, fasta, single=False):
         arg = plist[0]
     else:
         arg = os.path.join(scratch, "fp.txt")
-        fw.write_text(arg, "".join(p + "\n" for p in plist))
+        ptext = "".join(p + "\n" for p in plist)
+        nonl = (len(ptext) + len(plist) + int(fasta)) % 2 == 1  # about every other path file has no newline after its last path
+        fw.write_text(arg, ptext[:-1] if nonl else ptext)
     out = fw.guarded(find_path.run, gfa_path=gpath, input_path=arg, output=outp, fasta=fasta)
     res.evaluations += 1
     case = {"gfa": text, "mode": "find_path", "paths": plist, "fasta": fasta, "single": single}
